@@ -54,6 +54,8 @@ type KdcScenario struct {
 	NKdc     int
 	Realm    string // absent | default | second | unknown
 	Size     int    // Kerberos payload size (without the 4-byte prefix)
+	// ReplySize > 0: the KDC's reply has that many bytes (a datagram over UDP; after the 4-byte prefix over TCP)
+	ReplySize int
 	UDP      []string
 	TCP      []string
 	Name     string
@@ -99,6 +101,20 @@ func kdcReply(idx int, proto string) []byte {
 	}
 	b := make([]byte, 4)
 	binary.BigEndian.PutUint32(b, uint32(len(body)))
+	return append(b, body...)
+}
+
+// kdcBigReply: a reply of n bytes whose content depends on the position (a cut or a shift shows).
+func kdcBigReply(idx int, proto string, n int) []byte {
+	body := make([]byte, n)
+	for i := range body {
+		body[i] = byte(i*7 + idx + i/251)
+	}
+	if proto == "udp" {
+		return body
+	}
+	b := make([]byte, 4)
+	binary.BigEndian.PutUint32(b, uint32(n))
 	return append(b, body...)
 }
 
@@ -160,6 +176,9 @@ func RunKdc(sc KdcScenario, prefix []int, logOn bool) *KdcResult {
 			}
 			kc.pc = gwEnd
 			kc.Reply = kdcReply(idx, network)
+			if sc.ReplySize > 0 {
+				kc.Reply = kdcBigReply(idx, network, sc.ReplySize)
+			}
 			vsched.GoDaemon(fmt.Sprintf("kdc%d-%s", idx, network), func() { kdcPlay(kc, kdcEnd, network, beh) })
 			return gwEnd, nil
 		}
@@ -386,6 +405,17 @@ func c20Scenarios(thorough bool) []KdcScenario {
 			}
 		}
 	}
+	// replies of the sizes KDCs are configured to send over UDP (1465, 4096) and beyond, and large ones over TCP
+	for _, rs := range []int{1465, 4096, 4097, 9000, 60000, 65507} {
+		s := KdcScenario{NKdc: 1, Realm: "default", Size: 100, UDP: []string{"reply"}, TCP: []string{"silent"}, ReplySize: rs}
+		s.Name = fmt.Sprintf("kdcs=1/realm=default/size=100/udp=reply/tcp=silent/reply-size=%d", rs)
+		out = append(out, s)
+	}
+	for _, rs := range []int{4097, 65536, 100000} {
+		s := KdcScenario{NKdc: 1, Realm: "default", Size: 100, UDP: []string{"silent"}, TCP: []string{"reply-close"}, ReplySize: rs}
+		s.Name = fmt.Sprintf("kdcs=1/realm=default/size=100/udp=silent/tcp=reply-close/reply-size=%d", rs)
+		out = append(out, s)
+	}
 	// 2 and 3 KDCs: all behaviour combinations, default realm, one size
 	for _, n := range []int{2, 3} {
 		var rec func(i int, u, t []string)
@@ -412,7 +442,7 @@ func c20Scenarios(thorough bool) []KdcScenario {
 
 func c20(env *Env, rep *Report) {
 	scs := c20Scenarios(env.thorough())
-	rep.Rule = fmt.Sprintf("%d request scenarios against the real kdcproxy handler with scripted KDC connections: 1 KDC: realms {default, absent, second, unknown; for two sizes also a child realm with its own KDC and an unconfigured realm below a [domain_realm] suffix of the parent realm} x Kerberos payload sizes {0,1,3,4,5,100,1500,65535,128KiB-32} x UDP behaviour {reply, silent, refuse} x TCP behaviour {reply then close, reply and keep open, reply in two writes, half a reply then close, close at once, silent, refuse}; 2 and 3 KDCs: every combination of those behaviours (quick: 3 KDCs without two-writes/close-at-once). "+
+	rep.Rule = fmt.Sprintf("%d request scenarios against the real kdcproxy handler with scripted KDC connections: 1 KDC: realms {default, absent, second, unknown; for two sizes also a child realm with its own KDC and an unconfigured realm below a [domain_realm] suffix of the parent realm} x Kerberos payload sizes {0,1,3,4,5,100,1500,65535,128KiB-32} x UDP behaviour {reply, silent, refuse} x TCP behaviour {reply then close, reply and keep open, reply in two writes, half a reply then close, close at once, silent, refuse}; 2 and 3 KDCs: every combination of those behaviours (quick: 3 KDCs without two-writes/close-at-once); KDC replies of 1465 / 4096 / 4097 / 9000 / 60000 / 65507 bytes over UDP and 4097 / 65536 / 100000 bytes over TCP. "+
 		"Each runs under the default schedule with deadlines firing at quiescence; selected scenarios additionally under every schedule of handler, reply readers and KDC threads up to the preemption bound. Oracle: KDCs of the right realm receive exactly the embedded message (TCP with, UDP without the 4-byte prefix); if any connection delivers a complete reply the response is 200 and its kerb-message is exactly one KDC's reply (length-prefixed); otherwise an error status; always an HTTP response and no goroutine left. Histories: 32 ordered pairs of requests in one process (first: each realm form, answered or not; second: each realm form), the second judged like a first request. Two requests at the same time (same realm, two realms, parent and child realm; KDCs that reply, stay silent, refuse, reply half) under every schedule up to the deviation bound: each is answered as if alone, by the reply of a connection that received its own message, without waiting for the other's deadline, and every KDC connection is closed. Malformed requests are part of C10(d). Binding: the real rdpgw binary with a kerberos configuration and scripted KDCs on loopback TCP/UDP sockets (realms whose KDC replies over TCP, over UDP, stays silent, refuses TCP, truncates its reply; unknown realm; other methods; malformed bodies): every request gets an HTTP response with the status and bytes above. distinct_nontrivial = distinct scenarios.", len(scs))
 	rep.Assumptions = append(rep.Assumptions,
 		"a UDP write of more than 65507 bytes fails with EMSGSIZE, as on a real socket",
